@@ -74,7 +74,8 @@ def window(batch, n):
     return s - 1, e - 1
 
 
-KINDS = ('obj', 'map', 'pair', 'str', 'int', 'mix', 'mixstr')
+KINDS = ('obj', 'map', 'pair', 'str', 'int', 'mix', 'mixstr', 'dict',
+         'pairdict')
 PREFIXES = ('p', 'my_row')
 CONTAINERS = ('list', 'tuple', 'iter', 'gen', 'lazy')
 FIXED = ('item', 'key', 'index', 'number', 'letter', 'Letter', 'roman',
@@ -122,6 +123,12 @@ def elements(kind, xs):
             out.append({'id': i, 'x': x})
         elif kind == 'pair':
             out.append(('k%d' % i, Elem(i, x)))
+        elif kind == 'dict':
+            # plain dictionaries iterated *without* `mapping`: client
+            # objects like any other, their keys are not names
+            out.append({'id': i, 'x': x})
+        elif kind == 'pairdict':
+            out.append(('k%d' % i, {'id': i, 'x': x}))
         elif kind == 'str':
             out.append('s%d' % i)
         elif kind == 'mix':
@@ -168,6 +175,14 @@ def cases(tier):
                         for pn in (PREFIXES if 'prefix' in opts else ('p',)):
                             yield {'kind': kind, 'cont': cont, 'opts': opts,
                                    'batch': batch, 'n': n, 'pname': pn}
+    # runs of *different false values* of x (0, None, '') next to each
+    # other: first-x / last-x see every boundary
+    for kind in ('obj', 'map', 'pair'):
+        for cont in ('list', 'iter'):
+            for opts in ([], ['prefix'], ['reverse'], ['no_push_item']):
+                for n in range(2, maxn + 1):
+                    yield {'kind': kind, 'cont': cont, 'opts': opts,
+                           'batch': 0, 'n': n, 'pname': 'p', 'dom': 'falsy'}
     for attr in ATTR_NAMES:
         for mapping in (0, 1):
             yield {'attr': attr, 'mapping': mapping}
@@ -189,7 +204,7 @@ def body_source(kind, opts, batch, pname='p'):
 
     for pre in (['sequence-'] + ([pname + '_'] if 'prefix' in opts else [])):
         for f in FIXED:
-            if f == 'key' and kind != 'pair':
+            if f == 'key' and kind not in ('pair', 'pairdict'):
                 continue
             (boolean if f in BOOLS else var)(pre + f)
     if has_x:
@@ -283,7 +298,7 @@ def expected(kind, opts, batch, xs):
         cells = []
         for _pre in (['sequence-'] + (['p_'] if 'prefix' in opts else [])):
             for f in FIXED:
-                if f == 'key' and kind != 'pair':
+                if f == 'key' and kind not in ('pair', 'pairdict'):
                     continue
                 cells.append(fixed[f])
         if has_x:
@@ -292,6 +307,8 @@ def expected(kind, opts, batch, xs):
                 cells.append('1' if i == 0 or sx[i] != sx[i - 1] else '0')
                 cells.append('1' if i == n - 1 or sx[i] != sx[i + 1] else '0')
         ident = order[i]
+        if kind in ('dict', 'pairdict'):
+            pushed = False      # keys are not attributes
         cells.append(str(sx[i]) if pushed else '-')
         cells.append(str(ident) if pushed else '-')
         rows.append('[' + ';'.join(cells) + ']')
@@ -307,7 +324,7 @@ def first_difference(got, exp, kind, opts, batch):
     names = []
     for pre in (['sequence-'] + (['p_'] if 'prefix' in opts else [])):
         for f in FIXED:
-            if f == 'key' and kind != 'pair':
+            if f == 'key' and kind not in ('pair', 'pairdict'):
                 continue
             names.append(pre + f)
     if kind in ('obj', 'map', 'pair', 'mix'):
@@ -481,6 +498,8 @@ def run(case):
     n = case['n']
     has_x = case['kind'] in ('obj', 'map', 'pair', 'mix', 'mixstr')
     pats = itertools.product((1, 2), repeat=n) if has_x else [(1,) * n]
+    if case.get('dom') == 'falsy':
+        pats = itertools.product((0, None, '', 3), repeat=n)
     ev = nt = 0
     for xs in pats:
         got = one(res, case, list(xs))
